@@ -181,7 +181,7 @@ def model_upstream(prog, env):
         sh = Shadow(prog).run_all()
     except Exception:
         return []
-    if sh.raised:
+    if any(not prog[i].get("expect_raise") for i in (sh.raised if isinstance(sh.raised, dict) else range(len(prog)) if sh.raised else ())):
         return []
     touched = set()
     for st in prog:
